@@ -281,4 +281,80 @@ def framesOf : List RxEvent → List Frame
   | .badLen bs :: r => bs :: framesOf r
   | _ :: r => framesOf r
 
+/-! ## What the functions above hard-wire, as the source states it
+
+`Shape.rmcp` is `Rmcp._send_and_receive` written in the syntax of Model/LoopAst.lean; the
+translator writes the same function, re-read from the working tree, to
+`Gen.Loops04.rmcpSendAndReceive` on every run, and `Props.C04.source_shape_rmcp` states that the
+two are EQUAL.  Each statement is annotated with the place of this file that mirrors it, so a
+statement that moves, disappears, appears or changes breaks that theorem and points here.
+(With `Cfg.requeue = false`; the as-shipped variant `requeue = true` had
+`if not received: self._q.put(rx_data)` in front of `received_retry += 1`.) -/
+namespace Shape
+open PyIpmi.LoopAst
+
+/-- variables: 0=target, 1=lun, 2=netfn, 3=cmdid, 4=payload (parameters), 5=header, 6=tx_data,
+7=retry, 8=received, 9=received_retry, 10=rx_data -/
+def rmcp : Fun :=
+  { params := 5, body := py[
+    -- `rmcpRequest`: `seq := incSeq st.nextSeq` comes FIRST and on every path — the new state
+    -- carries `seq` whatever the outcome (a failed request uses its number up)
+    .expr (.call (.attr .self_ .u_inc_sequence_number) args[]),
+    -- `mkHdr cfg.slaveAddr req seq`: the seven header fields; rq_seq is the number just advanced
+    .assign (.var 5) (.call (.glob .IpmbHeaderReq) args[]),
+    .assign (.attr (.var 5) .netfn) (.var 2),
+    .assign (.attr (.var 5) .rs_lun) (.var 1),
+    .assign (.attr (.var 5) .rs_sa) (.attr (.var 0) .ipmb_address),
+    .assign (.attr (.var 5) .rq_seq) (.attr .self_ .next_sequence_number),
+    .assign (.attr (.var 5) .rq_lun) (.num 0),
+    .assign (.attr (.var 5) .rq_sa) (.attr .self_ .slave_address),
+    .assign (.attr (.var 5) .cmdid) (.var 3),
+    -- `txData`: built ONCE, before the loops, with the same number (also in every Send Message envelope)
+    .ite (.attr (.var 0) .routing) py[
+      .assign (.var 6) (.call (.glob .encode_bridged_message) args[.attr (.var 0) .routing, .var 5, .var 4, .attr .self_ .next_sequence_number])] py[
+      .assign (.var 6) (.call (.glob .encode_ipmb_msg) args[.var 5, .var 4])],
+    -- one lock block around everything that touches the socket or `_q` (C14)
+    .with_ (.attr .self_ .transaction_lock) py[
+      -- `outer … (outerBudget cfg) … 0`: counter from 0 while `<= max_retries` (Gen.rmcpOuterExtra = 1)
+      .assign (.var 7) (.num 0),
+      .while_ (.cmp .le (.var 7) (.attr .self_ .max_retries)) py[
+        .try_ py[
+          -- `outer`: every round sends the SAME tx_data once (`n + 1`, `List.replicate r.sends (txData …)`)
+          .expr (.call (.attr .self_ .u_send_ipmi_msg) args[.var 6]),
+          -- `inner cfg h (innerBudget cfg)`: fresh budget every round, `<= max_retries` (Gen.rmcpInnerExtra = 1)
+          .assign (.var 8) .ff,
+          .assign (.var 9) (.num 0),
+          .while_ (.and_ (.cmp .is_ (.var 8) .ff) (.cmp .le (.var 9) (.attr .self_ .max_retries))) py[
+            -- `nextQ` before `nextSock`: `_q` is read first, the socket only when it is empty;
+            -- `socket.timeout` from the receive leaves BOTH inner constructs (`Next.timeout`, `Inner.timeout`)
+            .ite (.not_ (.call (.attr (.attr .self_ .u_q) .empty) args[])) py[
+              .assign (.var 10) (.call (.attr (.attr .self_ .u_q) .get) args[])] py[
+              .assign (.var 10) (.call (.attr .self_ .u_receive_ipmi_msg) args[.attr .self_ .ignore_sdu_length])],
+            -- `classify`: byte `Gen.rmcpBridgeIdx` = Send Message → `peelN`; empty result = bare
+            -- acknowledgement = `Cls.ack` → `continue` WITHOUT touching the counter (`nextQ`/`nextSock` recurse)
+            .ite (.cmp .eq (.index (.call (.glob .array) args[.chr 66, .var 10]) (.num 5)) (.attr (.glob .constants) .CMDID_SEND_MESSAGE)) py[
+              .assign (.var 10) (.call (.glob .decode_bridged_message) args[.var 10]),
+              .ite (.not_ (.var 10)) py[
+                .cont] py[]] py[],
+            -- `classify`: `rxFilter cfg.checkSeq h g` decides hit / noise, `received` is ONLY ever the filter's verdict
+            .assign (.var 8) (.call (.glob .rx_filter) args[.var 5, .var 10, .kw .rq_seq (.not_ (.attr .self_ .ignore_rq_seq))]),
+            -- `inner`: a filtered frame costs one unit of budget (`b + 1 ↦ b`); NOTHING is put back into
+            -- `_q` (`cfg.requeue = false`: the unmatched frame is dropped)
+            .aug .add (.var 9) (.num 1)] py[],
+          -- `Inner.exhausted` → RetryError leaves the function (not caught: only socket.timeout is)
+          .ite (.not_ (.var 8)) py[
+            .raise (.glob .RetryError)] py[],
+          -- `Inner.done g` → leave the retry loop with rx_data = the frame that passed the filter
+          .brk] (.cons (.attr (.glob .socket) .timeout) py[
+          -- `Inner.timeout` → `outer … r …`: one retry used, next round re-sends
+          .aug .add (.var 7) (.num 1)] .nil)] py[]],
+    -- `outer 0` → RetryError: the give-up test is the COUNTER, not the content of rx_data
+    .ite (.cmp .gt (.var 7) (.attr .self_ .max_retries)) py[
+      .raise (.glob .RetryError)] py[],
+    -- `Inner.done g` → `.ok (pySlice Gen.rmcpDataLo Gen.rmcpDataHi g)`; rx_data can only be a frame that
+    -- passed rx_filter in the LAST round (`break` is the only way here with retry <= max_retries)
+    .ret (.slice (.var 10) (.num 6) (.neg 1))] }
+
+end Shape
+
 end PyIpmi.Loops
